@@ -1174,14 +1174,16 @@ theorem remapGo_spec (m : Option MapIn) (mc : Nat) (om : List Nat) (ims : List (
     (∀ p ∈ l, ∀ outer inner, mapGet m p.2 = some (outer, inner) → outer < ims.length →
       outer ∈ om ∧ inner ∈ ims.getD outer [] ∧
       (ims.getD outer []).idxOf inner ≤ mx' ∧
-      out'.lookup p.1 = some (om.idxOf outer * 65536 ||| (ims.getD outer []).idxOf inner)) := by
+      out'.lookup p.1 = some (om.idxOf outer * 65536 ||| (ims.getD outer []).idxOf inner)) ∧
+    (∀ p ∈ l, ∃ outer inner, mapGet m p.2 = some (outer, inner)) := by
   intro l
   induction l with
   | nil =>
     intro out mx out' mx' _ _ h
     simp only [remapGo, pure, Except.pure, Except.ok.injEq, Prod.mk.injEq] at h
     obtain ⟨rfl, rfl⟩ := h
-    exact ⟨Nat.le_refl _, fun g v hv => Or.inl hv, fun g _ => rfl, fun p hp => by cases hp⟩
+    exact ⟨Nat.le_refl _, fun g v hv => Or.inl hv, fun g _ => rfl, (fun p hp => by cases hp),
+      (fun p hp => by cases hp)⟩
   | cons x rest ih =>
     intro out mx out' mx' hpw hlt h
     obtain ⟨new, old⟩ := x
@@ -1198,7 +1200,7 @@ theorem remapGo_spec (m : Option MapIn) (mc : Nat) (om : List Nat) (ims : List (
       · -- an outer index without subtable: skipped
         rename_i hout
         have := ih out mx out' mx' hpw' hlt' h
-        refine ⟨this.1, ?_, ?_, ?_⟩
+        refine ⟨this.1, ?_, ?_, ?_, ?_⟩
         · intro g v hv
           rcases this.2.1 g v hv with h1 | h1
           · exact Or.inl h1
@@ -1213,14 +1215,18 @@ theorem remapGo_spec (m : Option MapIn) (mc : Nat) (om : List Nat) (ims : List (
             rw [hget] at hm
             simp only [Option.some.injEq, Prod.mk.injEq] at hm
             omega
-          · exact this.2.2.2 p hp ou inn hm hou
+          · exact this.2.2.2.1 p hp ou inn hm hou
+        · intro p hp
+          rcases List.mem_cons.mp hp with rfl | hp
+          · exact ⟨outer, inner, hget⟩
+          · exact this.2.2.2.2 p hp
       · rename_i hout
         split at h
         · rename_i no ni hno hni
           obtain ⟨hmo, hio, _⟩ := bmGet_some hno
           obtain ⟨hmi, hii, _⟩ := bmGet_some hni
           have := ih _ _ out' mx' hpw' hlt' h
-          refine ⟨by have := this.1; omega, ?_, ?_, ?_⟩
+          refine ⟨by have := this.1; omega, ?_, ?_, ?_, ?_⟩
           · intro g v hv
             rcases this.2.1 g v hv with h1 | h1
             · by_cases hg : new = g
@@ -1248,7 +1254,11 @@ theorem remapGo_spec (m : Option MapIn) (mc : Nat) (om : List Nat) (ims : List (
               refine ⟨hmo, hmi, by rw [← hii]; have := this.1; omega, ?_⟩
               rw [this.2.2.1 new (fun q hq => by have := hx q hq; simp at this; omega)]
               simp [List.lookup, hio, hii]
-            · exact this.2.2.2 p hp ou inn hm hou
+            · exact this.2.2.2.1 p hp ou inn hm hou
+          · intro p hp
+            rcases List.mem_cons.mp hp with rfl | hp
+            · exact ⟨outer, inner, hget⟩
+            · exact this.2.2.2.2 p hp
         · cases h
 
 
@@ -1419,6 +1429,99 @@ theorem entry_ok (om : List Nat) (ims : List (List Nat)) (hom : om.Pairwise (· 
   refine ⟨d1, d2, hlt, by omega, by rw [pow256]; omega, ?_⟩
   rw [← mul_add_eq_or hlt, Nat.mod_eq_of_lt (by omega)]
 
+/-- what one call of `remap` establishes (the list is split at `last_gid`). -/
+theorem remap_facts (m : Option MapIn) (n2o : List (Nat × Nat)) (om : List Nat) (ims : List (List Nat))
+    (p p' : MapPlan) (lastGid : Option Nat)
+    (hpw : n2o.Pairwise (fun a b => a.1 < b.1)) (hnew : ∀ q ∈ n2o, q.1 < 65535)
+    (hscan : scanBack m n2o.reverse none = .ok lastGid)
+    (hmc : p.mapCount = match lastGid with
+      | none => 0
+      | some lg => (lg + 1) % 65536)
+    (hremap : remap p m n2o om ims = .ok p') (hne : n2o ≠ []) :
+    ∃ pre x suf val out mx, n2o = pre ++ x :: suf ∧ p.mapCount = x.1 + 1 ∧
+      p' = { p with output := out, innerBits := max (bitLen mx) 1 } ∧
+      (∀ a ∈ pre, a.1 < x.1) ∧ (∀ b ∈ suf, x.1 < b.1) ∧
+      (∀ q ∈ x :: suf, mapGet m q.2 = some val) ∧
+      (∀ g v, out.lookup g = some v → Src m om ims (pre ++ [x]) g v ∧ v % 65536 ≤ mx) ∧
+      (∀ a ∈ pre ++ [x], ∃ o i, mapGet m a.2 = some (o, i)) ∧
+      (∀ a ∈ pre ++ [x], ∀ o i, mapGet m a.2 = some (o, i) → o < ims.length →
+        o ∈ om ∧ i ∈ ims.getD o [] ∧
+        out.lookup a.1 = some (om.idxOf o * 65536 ||| (ims.getD o []).idxOf i)) := by
+  rcases scanBack_spec m n2o lastGid hscan with ⟨rfl, _⟩ | ⟨pre, x, suf, val, hl, hr, hval⟩
+  · exact absurd rfl hne
+  subst hr
+  have hx65 : x.1 < 65535 := hnew x (by rw [hl]; simp)
+  have hmc' : p.mapCount = x.1 + 1 := by rw [hmc]; simp only []; omega
+  rw [hl] at hpw
+  have hpw1 := List.pairwise_append.mp hpw
+  have hpre : ∀ a ∈ pre, a.1 < x.1 := fun a ha => hpw1.2.2 a ha x (by simp)
+  have hsuf : ∀ b ∈ suf, x.1 < b.1 := fun b hb => (List.pairwise_cons.mp hpw1.2.1).1 b hb
+  unfold remap at hremap
+  simp only [bind, Except.bind] at hremap
+  split at hremap
+  · cases hremap
+  rename_i res hgo
+  obtain ⟨out, mx⟩ := res
+  simp only [pure, Except.pure, Except.ok.injEq] at hremap
+  have hall : ∀ a ∈ pre ++ [x], a.1 % 65536 < p.mapCount := by
+    intro a ha
+    rcases List.mem_append.mp ha with h | h
+    · have := hpre a h; rw [Nat.mod_eq_of_lt (by omega)]; omega
+    · simp at h; subst h; rw [Nat.mod_eq_of_lt (by omega)]; omega
+  have hrest : ∀ y ∈ suf.head?, y.1 % 65536 ≥ p.mapCount := by
+    intro y hy
+    have hys : y ∈ suf := List.mem_of_mem_head? hy
+    have := hsuf y hys
+    have := hnew y (by rw [hl]; simp [hys])
+    rw [Nat.mod_eq_of_lt (by omega)]; omega
+  have hsplit : n2o = (pre ++ [x]) ++ suf := by rw [hl]; simp
+  have hproc : remapGo m p.mapCount om ims (pre ++ [x]) [] 0 = .ok (out, mx) := by
+    rw [← remapGo_prefix m p.mapCount om ims suf hrest (pre ++ [x]) [] 0 hall, ← hsplit]; exact hgo
+  have hpwproc : (pre ++ [x]).Pairwise (fun a b => a.1 < b.1) := by
+    have : ((pre ++ [x]) ++ suf).Pairwise (fun a b => a.1 < b.1) := by simpa using hpw
+    exact (List.pairwise_append.mp this).1
+  obtain ⟨_, hsrc, _, hlook, hsome⟩ :=
+    remapGo_spec m p.mapCount om ims (pre ++ [x]) [] 0 out mx hpwproc hall hproc
+  refine ⟨pre, x, suf, val, out, mx, hl, hmc', hremap.symm, hpre, hsuf, hval, ?_, hsome, ?_⟩
+  · intro g v hv
+    rcases hsrc g v hv with h0 | h1
+    · simp at h0
+    · exact h1
+  · intro a ha o i hga hol
+    obtain ⟨h1, h2, _, h4⟩ := hlook a ha o i hga hol
+    exact ⟨h1, h2, h4⟩
+
+/-- the original index of every kept glyph exists (otherwise `new` returned a read error or `remap`
+hit its `unwrap`), and `output_map` is not empty. -/
+theorem remap_defined (m : Option MapIn) (n2o : List (Nat × Nat)) (om : List Nat) (ims : List (List Nat))
+    (p p' : MapPlan) (lastGid : Option Nat)
+    (hpw : n2o.Pairwise (fun a b => a.1 < b.1)) (hnew : ∀ q ∈ n2o, q.1 < 65535)
+    (hscan : scanBack m n2o.reverse none = .ok lastGid)
+    (hmc : p.mapCount = match lastGid with
+      | none => 0
+      | some lg => (lg + 1) % 65536)
+    (hremap : remap p m n2o om ims = .ok p') :
+    (∀ q ∈ n2o, ∃ o i, mapGet m q.2 = some (o, i)) ∧
+    (n2o ≠ [] → (∀ q ∈ n2o, ∀ o i, mapGet m q.2 = some (o, i) → o < ims.length) → p'.output ≠ []) := by
+  by_cases hne : n2o = []
+  · subst hne; exact ⟨(fun q hq => by cases hq), fun h => absurd rfl h⟩
+  obtain ⟨pre, x, suf, val, out, mx, hl, _, hp', _, _, hval, _, hsome, hlook⟩ :=
+    remap_facts m n2o om ims p p' lastGid hpw hnew hscan hmc hremap hne
+  constructor
+  · intro q hq
+    rw [hl] at hq
+    rcases List.mem_append.mp hq with h | h
+    · exact hsome q (by simp [h])
+    · exact ⟨val.1, val.2, hval q h⟩
+  · intro _ hol
+    obtain ⟨o, i, hx⟩ := hsome x (by simp)
+    have := (hlook x (by simp) o i hx (hol x (by rw [hl]; simp) o i hx)).2.2
+    rw [hp']
+    intro he
+    simp only [] at he
+    rw [he] at this
+    simp at this
+
 /-- **(d) the DeltaSetIndexMap rewrite**: reading the written map at the new gid of any kept glyph
 gives `(outer_map[o], inner_maps[o][i])` where `(o, i)` is what the original map (or the implicit
 `gid ↦ (0, gid)` rule) gives for the old gid — including the glyphs beyond the trimmed `map_count`,
@@ -1440,44 +1543,16 @@ theorem map_rewrite (m : Option MapIn) (n2o : List (Nat × Nat)) (om : List Nat)
       dsimGet mo.entryFormat mo.mapCount mo.data q.1 =
         some (om.idxOf outer, (ims.getD outer []).idxOf inner) := by
   intro q hq outer inner hget
-  rcases scanBack_spec m n2o lastGid hscan with ⟨rfl, _⟩ | ⟨pre, x, suf, val, hl, hr, hval⟩
-  · cases hq
-  subst hr
+  have hne : n2o ≠ [] := List.ne_nil_of_mem hq
+  obtain ⟨pre, x, suf, val, out, mx, hl, hmc', hp', hpre, hsuf, hval, hsrc, _, hlook⟩ :=
+    remap_facts m n2o om ims p p' lastGid hpw hnew hscan hmc hremap hne
+  subst hp'
   have hx65 : x.1 < 65535 := hnew x (by rw [hl]; simp)
-  have hmc' : p.mapCount = x.1 + 1 := by rw [hmc]; simp only []; omega
-  -- order
-  rw [hl] at hpw
-  have hpw1 := List.pairwise_append.mp hpw
-  have hpre : ∀ a ∈ pre, a.1 < x.1 := fun a ha => hpw1.2.2 a ha x (by simp)
-  have hsuf : ∀ b ∈ suf, x.1 < b.1 := fun b hb => (List.pairwise_cons.mp hpw1.2.1).1 b hb
-  -- the loop
-  unfold remap at hremap
-  simp only [bind, Except.bind] at hremap
-  split at hremap
-  · cases hremap
-  rename_i res hgo
-  obtain ⟨out, mx⟩ := res
-  simp only [pure, Except.pure, Except.ok.injEq] at hremap
-  subst hremap
-  have hall : ∀ a ∈ pre ++ [x], a.1 % 65536 < p.mapCount := by
-    intro a ha
+  have hsub : ∀ a ∈ pre ++ [x], a ∈ n2o := by
+    intro a ha; rw [hl]
     rcases List.mem_append.mp ha with h | h
-    · have := hpre a h; rw [Nat.mod_eq_of_lt (by omega)]; omega
-    · simp at h; subst h; rw [Nat.mod_eq_of_lt (by omega)]; omega
-  have hrest : ∀ y ∈ suf.head?, y.1 % 65536 ≥ p.mapCount := by
-    intro y hy
-    have hys : y ∈ suf := List.mem_of_mem_head? hy
-    have := hsuf y hys
-    have := hnew y (by rw [hl]; simp [hys])
-    rw [Nat.mod_eq_of_lt (by omega)]; omega
-  have hsplit : n2o = (pre ++ [x]) ++ suf := by rw [hl]; simp
-  have hproc : remapGo m p.mapCount om ims (pre ++ [x]) [] 0 = .ok (out, mx) := by
-    rw [← remapGo_prefix m p.mapCount om ims suf hrest (pre ++ [x]) [] 0 hall, ← hsplit]; exact hgo
-  have hpwproc : (pre ++ [x]).Pairwise (fun a b => a.1 < b.1) := by
-    have : ((pre ++ [x]) ++ suf).Pairwise (fun a b => a.1 < b.1) := by simpa using hpw
-    exact (List.pairwise_append.mp this).1
-  obtain ⟨_, hsrc, _, hlook⟩ := remapGo_spec m p.mapCount om ims (pre ++ [x]) [] 0 out mx hpwproc hall hproc
-  have hsub : ∀ a ∈ pre ++ [x], a ∈ n2o := by intro a ha; rw [hsplit]; exact List.mem_append_left _ ha
+    · simp [h]
+    · simp at h; simp [h]
   -- serialisation
   have hmcpos : 0 < ({ p with output := out, innerBits := max (bitLen mx) 1 } : MapPlan).mapCount := by
     simp [hmc']
@@ -1491,16 +1566,14 @@ theorem map_rewrite (m : Option MapIn) (n2o : List (Nat × Nat)) (om : List Nat)
   have hw2 : width ≤ 4 := by omega
   have hw8 : p.outerBits + ib ≤ 8 * width := by omega
   -- every written entry comes from a processed glyph
-  have hentry : ∀ g v, out.lookup g = some v → ∃ outer' inner', outer' ∈ om ∧ inner' ∈ ims.getD outer' [] ∧
-      v / 65536 = om.idxOf outer' ∧ v % 65536 = (ims.getD outer' []).idxOf inner' ∧
+  have hentry : ∀ g v, out.lookup g = some v →
       v % 65536 < 2 ^ ib ∧ v / 65536 < 65536 ∧ v / 65536 * 2 ^ ib + v % 65536 < 256 ^ width ∧
       (v / 65536 * 2 ^ ib ||| v % 65536) % 4294967296 = v / 65536 * 2 ^ ib + v % 65536 := by
     intro g v hv
-    rcases hsrc g v hv with h0 | ⟨⟨old, outer', inner', hmem, hmg, ho, hi, hveq⟩, hmxv⟩
-    · simp at h0
-    · have ⟨h1, h2, h3⟩ := houter (g, old) (hsub _ hmem) outer' inner' hmg
-      have := entry_ok om ims hom hims p.outerBits ib width mx hib.symm hw8 hw2 outer' inner' ho hi h1 h2 h3 v hveq hmxv
-      exact ⟨outer', inner', ho, hi, this⟩
+    obtain ⟨⟨old, outer', inner', hmem, hmg, ho, hi, hveq⟩, hmxv⟩ := hsrc g v hv
+    have ⟨h1, h2, h3⟩ := houter (g, old) (hsub _ hmem) outer' inner' hmg
+    have := entry_ok om ims hom hims p.outerBits ib width mx hib.symm hw8 hw2 outer' inner' ho hi h1 h2 h3 v hveq hmxv
+    exact ⟨this.2.2.1, this.2.2.2.1, this.2.2.2.2.1, this.2.2.2.2.2⟩
   let dec : Nat → Nat × Nat := fun i =>
     match out.lookup i with
     | none => (0, 0)
@@ -1514,7 +1587,7 @@ theorem map_rewrite (m : Option MapIn) (n2o : List (Nat × Nat)) (om : List Nat)
     cases hlk : out.lookup i with
     | none => simp [beBytes_zero]
     | some v =>
-      obtain ⟨_, _, _, _, _, _, _, _, _, h8⟩ := hentry i v hlk
+      obtain ⟨_, _, _, h8⟩ := hentry i v hlk
       simp only [h8]
   have hfit : ∀ e ∈ (List.range p.mapCount).map dec,
       e.2 < 2 ^ ib ∧ e.1 < 65536 ∧ e.1 * 2 ^ ib + e.2 < 256 ^ width := by
@@ -1524,7 +1597,7 @@ theorem map_rewrite (m : Option MapIn) (n2o : List (Nat × Nat)) (om : List Nat)
     cases hlk : out.lookup i with
     | none => simp; exact ⟨Nat.two_pow_pos _, Nat.pow_pos (by omega)⟩
     | some v =>
-      obtain ⟨_, _, _, _, _, _, h5, h6, h7, _⟩ := hentry i v hlk
+      obtain ⟨h5, h6, h7, _⟩ := hentry i v hlk
       exact ⟨h5, h6, h7⟩
   have hefmt : mo.entryFormat = (width - 1) * 16 + (ib - 1) := by
     rw [hef, Nat.mod_eq_of_lt (by omega)]
@@ -1545,15 +1618,14 @@ theorem map_rewrite (m : Option MapIn) (n2o : List (Nat × Nat)) (om : List Nat)
       ((List.range p.mapCount).map dec)[a.1]? = some (om.idxOf outer, (ims.getD outer []).idxOf inner) := by
     intro a ha hga
     have ⟨h1, _, _⟩ := houter a (hsub a ha) outer inner hga
-    obtain ⟨ho, hi, _, hlk⟩ := hlook a ha outer inner hga h1
+    obtain ⟨ho, hi, hlk⟩ := hlook a ha outer inner hga h1
     have ha1 : a.1 < p.mapCount := by
-      have h1 := hall a ha
-      have h2 := hnew a (hsub a ha)
-      rwa [Nat.mod_eq_of_lt (by omega)] at h1
+      rcases List.mem_append.mp ha with h | h
+      · have := hpre a h; omega
+      · simp at h; subst h; omega
     refine ⟨ho, hi, ?_⟩
     rw [List.getElem?_map, List.getElem?_range ha1]
     simp only [Option.map_some, dec, hlk]
-    -- the decoded entry is that of `(outer, inner)` itself
     have hmem : ims.getD outer [] ∈ ims := by
       rw [List.getD_eq_getElem?_getD, List.getElem?_eq_getElem h1]; simp
     have hni : (ims.getD outer []).idxOf inner < 65536 := by
